@@ -177,7 +177,11 @@ def main():
                    "baseline_off_cmd": "cd /repo && /venv/bin/python -m pytest -q -p no:cacheprovider --timeout=900", "source_commits": [], "add_only": True},
          "engines": [{"name": "y0vc", "path": "y0vc/", "serves_properties": sorted(CHECKS),
                       "kind_free_text": "contract-based deductive verification for Python: sidecar contracts (contracts/*.py) on the real functions, VC generation by symbolic execution of the real AST (y0vc/symexec.py), z3 + cvc5 discharge, finite exact mode for counterexamples replayed on the real code, the same contracts evaluated at run time as bounded stand-in"}],
-         "checks": [], "notes": "see DESIGN.md. Properties not yet built are listed under not_applicable with that reason and move to checks as they are built.",
+         "checks": [], "notes": "DESIGN.md section 0 describes what is built (it overrides the plan in sections 1-8). 17 properties are claimed; only C14 is claimed as proof, every other check separates "
+                  "discharged obligations from labelled bounded parts in its evidence file. C07, C08, C09 are not applicable (reasons below and in DESIGN.md 0.4). Exit codes: 0 held (UNDECIDED "
+                  "lines name obligations left to the bounded stand-in), 1 VIOLATION, 3 checker error. VERIF_SEED selects the sampled inputs (and the interpreter's hash seed); known findings "
+                  "are in known_findings.json; 19 fix: commits in /repo are listed there under `fixed`. Developer tools (not registered): bin/mutcheck, bin/seedmatrix.sh (seeded/), "
+                  "bin/benignmatrix.sh (benign/), bin/seedsweep.sh.",
          "not_applicable": []}
     for p in props:
         pid = p["id"]
